@@ -1,6 +1,6 @@
 /-
   C10 lemmas, part 5: the model's fuelled loops (`pull`, `pullIns`, `pullEv`) as instances of one scheme
-  `L (f+1) p = cont (L f) (step p)`: buffer untouched, stash below its size, progress, and more fuel than
+  `L (f+1) p = cont (L f) (step p)`: buffer untouched, progress, and more fuel than
   the progress measure changes nothing.
 -/
 import Echse.Lemmas.Ical4
@@ -21,7 +21,6 @@ structure IsLoop (L : Nat → Parser → Parser × PullRes) (step : Parser → P
 /-- what a step must satisfy -/
 structure GoodStep (step : Parser → Parser × Option PullRes) : Prop where
   buf : ∀ p, (step p).1.buf = p.buf
-  stash : ∀ p, p.stash.length < stashSize → (step p).1.stash.length < stashSize
   mu : ∀ p, (step p).2 ≠ some .need → mu (step p).1 < mu p
 
 section
@@ -34,15 +33,6 @@ theorem loop_buf (hl : IsLoop L step) (hs : GoodStep step) : ∀ (f : Nat) (p : 
     cases h : (step p).2 with
     | none => rw [cont_none _ _ h, loop_buf hl hs f, hs.buf]
     | some r => rw [cont_some _ _ r h, hs.buf]
-
-theorem loop_stash_lt (hl : IsLoop L step) (hs : GoodStep step) : ∀ (f : Nat) (p : Parser),
-    p.stash.length < stashSize → (L f p).1.stash.length < stashSize
-  | 0, p, hp => by rw [hl.zero]; exact hp
-  | f+1, p, hp => by
-    rw [hl.succ]
-    cases h : (step p).2 with
-    | none => rw [cont_none _ _ h]; exact loop_stash_lt hl hs f _ (hs.stash p hp)
-    | some r => rw [cont_some _ _ r h]; exact hs.stash p hp
 
 /-- whenever the loop reports something it has made progress -/
 theorem loop_mu (hl : IsLoop L step) (hs : GoodStep step) : ∀ (f : Nat) (p : Parser),
@@ -87,7 +77,7 @@ theorem loop_fuel' (hl : IsLoop L step) (hs : GoodStep step) (f g : Nat) (p : Pa
 end
 
 theorem pull_isLoop : IsLoop pull round := ⟨pull_zero, pull_round⟩
-theorem round_good : GoodStep round := ⟨round_buf, round_stash_lt, round_mu⟩
+theorem round_good : GoodStep round := ⟨round_buf, round_mu⟩
 
 /-! ### `echs_evical_pull`, first loop -/
 
@@ -111,15 +101,9 @@ theorem pullIns_isLoop : IsLoop pullIns insStep := ⟨pullIns_zero, pullIns_step
 theorem mu_resetMeth (p : Parser) : mu (resetMeth p) = mu p := rfl
 
 theorem insStep_good : GoodStep insStep := by
-  refine ⟨?_, ?_, ?_⟩
+  refine ⟨?_, ?_⟩
   · intro p
     have := loop_buf pull_isLoop round_good (p.buf.length + 2) p
-    unfold insStep
-    split
-    · exact this
-    · exact this
-  · intro p hp
-    have := loop_stash_lt pull_isLoop round_good (p.buf.length + 2) p hp
     unfold insStep
     split
     · exact this
@@ -171,11 +155,9 @@ theorem evStep_fst (p : Parser) : (evStep p).1 = (pullIns (p.buf.length + 2) p).
   · rfl
 
 theorem evStep_good : GoodStep evStep := by
-  refine ⟨?_, ?_, ?_⟩
+  refine ⟨?_, ?_⟩
   · intro p
     rw [evStep_fst]; exact loop_buf pullIns_isLoop insStep_good _ p
-  · intro p hp
-    rw [evStep_fst]; exact loop_stash_lt pullIns_isLoop insStep_good _ p hp
   · intro p hn
     rw [evStep_fst]
     refine loop_mu pullIns_isLoop insStep_good _ p ?_
